@@ -143,6 +143,43 @@ fn square(tier: Tier) -> Vec<N> {
     v
 }
 
+/// Pairs one unit in a far digit apart whose scales differ, with 9..17 significant digits in
+/// the shorter one: the two are closer than binary floating point resolves (or than an
+/// approximate conversion keeps in order), so whatever orders, subtracts or equates them
+/// through f64 gets them wrong somewhere in this family, while exact decimal never does.
+fn neighbour_pairs() -> Vec<(N, N)> {
+    const DIGITS: &[&str] = &["29250764489786930", "89786930982803164", "64678561795587512", "12345678901234567", "99999999999999999", "10000000000000001", "31415926535897932", "27182818284590452", "14142135623730950", "17320508075688772", "90071992547409921", "45035996273704961"];
+    let mut v = Vec::new();
+    for d in DIGITS {
+        for len in 9..=17usize {
+            let m: u128 = d[..len].parse().unwrap();
+            let mut scales = vec![0u32, 1, 3, len as u32 - 1, len as u32];
+            scales.dedup();
+            for s in scales {
+                for t in [s + 1, s + 3, s + 8, 16, 20, 27] {
+                    if t <= s || t > 28 {
+                        continue;
+                    }
+                    let up = match m.checked_mul(10u128.pow(t - s)) {
+                        Some(u) if u < MAX_MANT => u,
+                        _ => continue,
+                    };
+                    for y in [up + 1, up - 1] {
+                        for neg in [false, true] {
+                            let (a, b) = (N { neg, mant: m, scale: s }, N { neg, mant: y, scale: t });
+                            v.push((a, b));
+                            v.push((b, a));
+                        }
+                    }
+                }
+            }
+        }
+    }
+    v
+}
+
+const NEIGHBOUR_OPS: &[&str] = &["<", "<=", ">", ">=", "==", "!=", "-", "not <", "not >="];
+
 const OPS: &[&str] = &["+", "-", "*", "%", "<", "<=", ">", ">=", "==", "!=", "+=", "-=", "*=", "%=", "/=", "not <", "not <=", "not >", "not >=", "not ==", "not !="];
 
 #[derive(Clone, Copy)]
@@ -315,6 +352,7 @@ impl Prop for C09 {
                 Stage { name: "literals".into(), len: nl, chunk: (nl / 48).max(200), timeout: Duration::from_secs(600), what: "mantissa edge set x every scale 0..28 x value-preserving spellings; malformed literals".into() },
                 Stage { name: "edges".into(), len: no * no, chunk: (no * no / 64).max(200), timeout: Duration::from_secs(900), what: "all ordered pairs of the edge operand set under 15 operators, via context variables and as literal text".into() },
                 Stage { name: "square".into(), len: ns * ns, chunk: (ns * ns / 64).max(200), timeout: Duration::from_secs(1800), what: "complete square of small mantissas x small scales under 15 operators".into() },
+                Stage { name: "neighbours".into(), len: neighbour_pairs().len() as u64, chunk: (neighbour_pairs().len() as u64 / 48).max(200), timeout: Duration::from_secs(900), what: "pairs of numbers of different scale, 9..17 significant digits in the shorter one, one unit in a far digit (up to the 27th place) apart, both signs, both orders: ordering, equality and difference must be the exact ones (closer together than binary floating point resolves)".into() },
             ],
             rule: format!(
                 "literals: {} mantissas (0..200, 10^k and 10^k±1, 2^k and 2^k±1 up to 96 bits, repdigits, range boundary) x scales 0..28 x spellings (leading zeros, trailing zeros, `1.`) must evaluate to exactly (mantissa, scale); {} malformed literals must be rejected. \
@@ -393,6 +431,22 @@ impl Prop for C09 {
                 out.count("states", b - a);
                 out.count("transitions", b - a);
             }
+            3 => {
+                let ps = neighbour_pairs();
+                for i in a..b {
+                    out.at(i);
+                    let (x, y) = &ps[i as usize];
+                    for op in NEIGHBOUR_OPS {
+                        check_arith(op, x, y, false, "neighbours", out);
+                        check_arith(op, x, y, true, "neighbours", out);
+                    }
+                    if i % 1009 == 1 {
+                        out.sample(format!("{} <op> {}", x.text(), y.text()));
+                    }
+                }
+                out.count("states", b - a);
+                out.count("transitions", (b - a) * NEIGHBOUR_OPS.len() as u64 * 2);
+            }
             _ => {
                 let set = if stage == 1 { operands() } else { square(tier) };
                 let n = set.len() as u64;
@@ -422,6 +476,10 @@ impl Prop for C09 {
             0 => {
                 let ms = mantissas();
                 render(false, ms[(i / 29) as usize], (i % 29) as u32)
+            }
+            3 => {
+                let (x, y) = neighbour_pairs()[i as usize];
+                format!("{} <op> {}", x.text(), y.text())
             }
             _ => {
                 let set = if stage == 1 { operands() } else { square(tier) };
